@@ -55,6 +55,7 @@ package cty
 //@   trusted
 //@   ensures (and (wf_deep result) (is_number_ty (vty result)) (not (is_null result)) (=> (not (is_marked val)) (not (is_marked result))))
 //@   ensures (=> (is_known result) (is_index_num result))
+//@   ensures (=> (not (is_marked val)) (= result (len_val val)))
 //
 //@ func (cty.Value).assertUnmarked
 //@   tags C02
@@ -199,4 +200,34 @@ package cty
 //@   ensures[C01] notnull: (not (is_null result))
 //@   ensures[C04] marks_kept: (forall ((k Any)) (! (=> (or (select (marks_of val) k) (select (marks_of other) k)) (select (marks_of result) k)) :pattern ((select (marks_of result) k))))
 //@   ensures[C04] nomarks: (=> (and (not (is_marked val)) (not (is_marked other))) (not (is_marked result)))
+//@   ensures[C06] wf: (wf_deep result)
+//
+// LessThanOrEqualTo / GreaterThanOrEqualTo combine the strict comparison with Equals (assumed contract:
+// on known numbers Equals computes num_eq, the decimal-text equality of rawNumberEqual).
+//@ func (cty.Value).LessThanOrEqualTo
+//@   tags C02 C01 C04
+//@   requires (and (wf_deep val) (wf_deep other))
+//@   let t (vty val)
+//@   let ot (vty other)
+//@   let sc (or (is_dyn_ty t) (is_dyn_ty ot) (not (is_known val)) (not (is_known other)))
+//@   panics[C02] (or (and (not (is_dyn_ty t)) (not (is_number_ty t))) (and (not (is_dyn_ty ot)) (not (is_number_ty ot))) (and (not sc) (or (is_null val) (is_null other))))
+//@   ensures[C02] type: (is_bool_ty (vty result))
+//@   ensures[C02] known: (=> (and (not sc) (not (is_marked val)) (not (is_marked other))) (bool_payload result (or (bf_lt (bf_of val) (bf_of other)) (num_eq val other))))
+//@   ensures[C01] notnull: (not (is_null result))
+//@   ensures[C04] marks_kept: (forall ((k Any)) (! (=> (or (select (marks_of val) k) (select (marks_of other) k)) (select (marks_of result) k)) :pattern ((select (marks_of result) k))))
+//@   ensures[C04] nomarks: (=> (and (is_number_ty t) (is_number_ty ot) (not (is_marked val)) (not (is_marked other))) (not (is_marked result)))
+//@   ensures[C06] wf: (wf_deep result)
+//
+//@ func (cty.Value).GreaterThanOrEqualTo
+//@   tags C02 C01 C04
+//@   requires (and (wf_deep val) (wf_deep other))
+//@   let t (vty val)
+//@   let ot (vty other)
+//@   let sc (or (is_dyn_ty t) (is_dyn_ty ot) (not (is_known val)) (not (is_known other)))
+//@   panics[C02] (or (and (not (is_dyn_ty t)) (not (is_number_ty t))) (and (not (is_dyn_ty ot)) (not (is_number_ty ot))) (and (not sc) (or (is_null val) (is_null other))))
+//@   ensures[C02] type: (is_bool_ty (vty result))
+//@   ensures[C02] known: (=> (and (not sc) (not (is_marked val)) (not (is_marked other))) (bool_payload result (or (bf_lt (bf_of other) (bf_of val)) (num_eq val other))))
+//@   ensures[C01] notnull: (not (is_null result))
+//@   ensures[C04] marks_kept: (forall ((k Any)) (! (=> (or (select (marks_of val) k) (select (marks_of other) k)) (select (marks_of result) k)) :pattern ((select (marks_of result) k))))
+//@   ensures[C04] nomarks: (=> (and (is_number_ty t) (is_number_ty ot) (not (is_marked val)) (not (is_marked other))) (not (is_marked result)))
 //@   ensures[C06] wf: (wf_deep result)
